@@ -145,6 +145,34 @@ Definition track_local (t : tok) : bool :=
   | _ => false
   end.
 
+(* projections through the setters (all by computation; independent of how the setters are written) *)
+Lemma pj_tracks_upd_cur s f : s_tracks (upd_cur s f) = upd_nth (s_cur s) f (s_tracks s). Proof. reflexivity. Qed.
+Lemma pj_tracks_harm s a b c : s_tracks (s_set_harmony s a b c) = s_tracks s. Proof. reflexivity. Qed.
+Lemma pj_tracks_oo s v : s_tracks (s_set_octave_once s v) = s_tracks s. Proof. reflexivity. Qed.
+Lemma pj_tracks_set s l : s_tracks (s_set_tracks s l) = l. Proof. reflexivity. Qed.
+Lemma pj_cur_upd_cur s f : s_cur (upd_cur s f) = s_cur s. Proof. reflexivity. Qed.
+Lemma pj_cur_harm s a b c : s_cur (s_set_harmony s a b c) = s_cur s. Proof. reflexivity. Qed.
+Lemma pj_cur_oo s v : s_cur (s_set_octave_once s v) = s_cur s. Proof. reflexivity. Qed.
+Lemma pj_cur_set s l : s_cur (s_set_tracks s l) = s_cur s. Proof. reflexivity. Qed.
+Lemma pj_tb_upd_cur s f : s_timebase (upd_cur s f) = s_timebase s. Proof. reflexivity. Qed.
+Lemma pj_tb_harm s a b c : s_timebase (s_set_harmony s a b c) = s_timebase s. Proof. reflexivity. Qed.
+Lemma pj_tb_oo s v : s_timebase (s_set_octave_once s v) = s_timebase s. Proof. reflexivity. Qed.
+Lemma pj_tb_set s l : s_timebase (s_set_tracks s l) = s_timebase s. Proof. reflexivity. Qed.
+Lemma pj_hf_upd_cur s f : s_harmony_flag (upd_cur s f) = s_harmony_flag s. Proof. reflexivity. Qed.
+Lemma pj_hf_harm s a b c : s_harmony_flag (s_set_harmony s a b c) = a. Proof. reflexivity. Qed.
+Lemma pj_hf_oo s v : s_harmony_flag (s_set_octave_once s v) = s_harmony_flag s. Proof. reflexivity. Qed.
+Lemma pj_he_upd_cur s f : s_harmony_events (upd_cur s f) = s_harmony_events s. Proof. reflexivity. Qed.
+Lemma pj_he_harm s a b c : s_harmony_events (s_set_harmony s a b c) = c. Proof. reflexivity. Qed.
+Lemma pj_he_oo s v : s_harmony_events (s_set_octave_once s v) = s_harmony_events s. Proof. reflexivity. Qed.
+Lemma pj_oo_upd_cur s f : s_octave_once (upd_cur s f) = s_octave_once s. Proof. reflexivity. Qed.
+Lemma pj_oo_harm s a b c : s_octave_once (s_set_harmony s a b c) = s_octave_once s. Proof. reflexivity. Qed.
+Lemma pj_oo_oo s v : s_octave_once (s_set_octave_once s v) = v. Proof. reflexivity. Qed.
+Ltac pj := repeat rewrite ?pj_tracks_upd_cur, ?pj_tracks_harm, ?pj_tracks_oo, ?pj_tracks_set, ?pj_cur_upd_cur, ?pj_cur_harm,
+             ?pj_cur_oo, ?pj_cur_set, ?pj_tb_upd_cur, ?pj_tb_harm, ?pj_tb_oo, ?pj_tb_set, ?pj_hf_upd_cur, ?pj_hf_harm, ?pj_hf_oo,
+             ?pj_he_upd_cur, ?pj_he_harm, ?pj_he_oo, ?pj_oo_upd_cur, ?pj_oo_harm, ?pj_oo_oo.
+Ltac pj_in H := repeat rewrite ?pj_tracks_upd_cur, ?pj_tracks_harm, ?pj_tracks_oo, ?pj_tracks_set, ?pj_cur_upd_cur, ?pj_cur_harm,
+             ?pj_cur_oo, ?pj_cur_set, ?pj_tb_upd_cur, ?pj_tb_harm, ?pj_tb_oo, ?pj_tb_set in H.
+
 (* only the current track may differ *)
 Definition frame_rel (s s' : song) : Prop :=
   s_cur s' = s_cur s /\ length (s_tracks s') = length (s_tracks s) /\
@@ -153,10 +181,9 @@ Definition frame_rel (s s' : song) : Prop :=
 
 Ltac frame_leaf :=
   split; [reflexivity|]; split;
-  [cbn [s_tracks s_cur upd_cur s_set_tracks s_set_harmony s_set_octave_once]; rewrite ?upd_nth_length; reflexivity|];
+  [pj; rewrite ?upd_nth_length; reflexivity|];
   split; [|reflexivity];
-  intros i Hi; cbn [s_tracks s_cur upd_cur s_set_tracks s_set_harmony s_set_octave_once];
-  rewrite ?nth_upd_nth_neq by exact Hi; reflexivity.
+  intros i Hi; pj; rewrite ?nth_upd_nth_neq by exact Hi; reflexivity.
 
 Lemma emit_note_frame s ev nl b slur s' : emit_note s ev nl b slur = Ok s' -> frame_rel s s'.
 Proof.
@@ -196,8 +223,7 @@ Proof. intros [_ [_ H]]. exact H. Qed.
 (* a leaf: some updates of the current track and of the global flags *)
 Ltac indep_leaf Hs :=
   destruct Hs as [Hc [Hc2 Hn]]; unfold lift; f_equal; apply song_eq; [reflexivity|];
-  unfold cur_track in *;
-  cbn [s_tracks s_cur s_timebase upd_cur s_set_tracks s_set_harmony s_set_octave_once] in *;
+  unfold cur_track, cur_ok in *; pj;
   rewrite ?upd_nth_upd_nth; rewrite ?nth_upd_nth_eq by exact Hc;
   match goal with
   | |- upd_nth ?c ?F ?l = _ => rewrite (upd_nth_const F dtrk l c); rewrite Hn; reflexivity
@@ -409,21 +435,14 @@ Lemma hnorm_idem s : hnorm (hnorm s) = hnorm s.
 Proof. unfold hnorm. destruct (s_harmony_flag s) eqn:F; [rewrite F; reflexivity|]. cbn [s_harmony_flag s_set_harmony]. reflexivity. Qed.
 
 Ltac hnorm_leaf F :=
-  unfold hnorm_res, hnorm;
-  cbn [s_harmony_flag s_harmony_events s_harmony_time s_octave_once s_timebase s_use_key_shift s_key_flag s_key_shift s_v_add s_q_add
-       s_tracks s_cur upd_cur s_set_tracks s_set_harmony s_set_octave_once cur_track];
-  rewrite ?F; reflexivity.
+  unfold hnorm_res, hnorm; pj; rewrite ?F; reflexivity.
 
 Lemma emit_note_hnorm s ev nl b slur : s_harmony_flag s = false ->
   hnorm_res (emit_note (s_set_harmony s false 0 (s_harmony_events s)) ev nl b slur) = hnorm_res (emit_note s ev nl b slur).
 Proof.
-  intros F. unfold emit_note, cur_track.
-  cbn [s_harmony_flag s_harmony_events s_harmony_time s_octave_once s_timebase s_tracks s_cur upd_cur s_set_tracks s_set_harmony
-       s_set_octave_once].
+  intros F. unfold emit_note, cur_track. pj.
   destruct b; [|hnorm_leaf F].
-  destruct (s_octave_once s =? 0);
-    cbn [s_harmony_flag s_harmony_events s_harmony_time s_octave_once s_timebase s_tracks s_cur upd_cur s_set_tracks s_set_harmony
-         s_set_octave_once]; rewrite ?F;
+  destruct (s_octave_once s =? 0); pj; rewrite ?F;
     (destruct (slur >=? 1); [hnorm_leaf F|]); destruct (negb _); hnorm_leaf F.
 Qed.
 
@@ -437,7 +456,7 @@ Proof.
   | solve [unfold exec_note, exec_note_n, note_number, key_flag_at;
            cbn [s_timebase s_use_key_shift s_key_flag s_key_shift s_tracks s_cur s_set_harmony cur_track];
            apply emit_note_hnorm; exact F]
-  | solve [unfold exec_rest, exec_harmony_end, exec_voice; cbn [s_harmony_flag s_set_harmony]; rewrite ?F;
+  | solve [unfold exec_rest, exec_harmony_end, exec_voice; pj; rewrite ?F; lazy beta iota;
            repeat match goal with
                   | |- context [if ?b then _ else _] => destruct b
                   | |- context [match ?a with [] => _ | _ => _ end] => destruct a as [|a0 [|a1 ar]]
